@@ -552,7 +552,9 @@ func (db *DB) loadIndexFromDataFiles(fileIds []uint32, nonMergeFileId uint32) er
 				// 进程崩溃或断电可能导致最新文件的尾部记录只写入了一部分 (其余文件在切换时已持久化).
 				// 残缺的尾部记录从未被确认, 将其截断后视为文件结束, 否则数据库无法再次打开.
 				// 完整写入但校验和不匹配的记录属于数据损坏, 仍然返回错误, 避免静默丢弃其后的已确认数据
-				if fileId == fileIds[len(fileIds)-1] && errors.Is(err, io.ErrUnexpectedEOF) {
+				// 映射文件缺失的部分表现为零而不是文件变短: 校验失败且其后从未写入过数据的 chunk 同样是残缺尾部
+				if fileId == fileIds[len(fileIds)-1] && (errors.Is(err, io.ErrUnexpectedEOF) ||
+					(errors.Is(err, datafile.ErrInvalidCRC) && reader.RestIsZero())) {
 					if err = dataFile.Truncate(reader.Offset()); err != nil {
 						return err
 					}
@@ -585,6 +587,13 @@ func (db *DB) loadIndexFromDataFiles(fileIds []uint32, nonMergeFileId uint32) er
 						Pos:    pos,
 					})
 				}
+			}
+		}
+		// 映射文件未正常关闭时, 最新文件的大小仍是映射区域的大小. 将逻辑大小恢复到最后一条记录的末尾,
+		// 否则后续写入会落在预分配的全零区域之后, 重启时无法读取
+		if fileId == fileIds[len(fileIds)-1] && reader.Offset() < dataFile.Size() {
+			if err := dataFile.Truncate(reader.Offset()); err != nil {
+				return err
 			}
 		}
 	}
